@@ -68,7 +68,7 @@ def check(case):
 
 PARTS = [
     Part("ideal", lambda tier: procs.process_case(kinds=("ideal-iso", "ideal-noniso")), check, {"quick": 4000, "thorough": 100000},
-         floor={"quick": 800, "thorough": 20000}),
+         floor={"quick": 300, "thorough": 8000}),
     Part("non-ideal", lambda tier: procs.process_case(kinds=("nonideal-iso", "nonideal-noniso"), max_steps=6), check,
-         {"quick": 320, "thorough": 6000}, floor={"quick": 60, "thorough": 1000}, shrink={"quick": False, "thorough": True}),
+         {"quick": 320, "thorough": 6000}, floor={"quick": 30, "thorough": 500}, shrink={"quick": False, "thorough": True}),
 ]
